@@ -193,7 +193,11 @@ pub fn convert_amount<'ctx>(
     date: NaiveDate,
 ) -> Result<Amount<'ctx>, ConversionError<'ctx>> {
     let mut result = Amount::zero();
-    for v in amount.iter() {
+    // HashMap iteration order is not stable, sort by the commodity name
+    // so that the reported error (if any) is always the same one.
+    let mut values: Vec<_> = amount.iter().collect();
+    values.sort_unstable_by_key(|v| v.commodity.as_str());
+    for v in values {
         result += price_repos.convert_single(v, commodity_with, date)?;
     }
     Ok(result)
